@@ -120,6 +120,18 @@ def get_char_value_and_length(s: str) -> Tuple[int, int]:
     return int(s[2:4], 16), 4
 
 
+def decimal_to_int(digits: str) -> int:
+    """int(digits); also for a literal longer than python's str->int conversion limit (which raises ValueError)."""
+    try:
+        return int(digits)
+    except ValueError:
+        value = 0
+        for i in range(0, len(digits), 512):
+            chunk = digits[i : i + 512]
+            value = value * 10 ** len(chunk) + int(chunk)
+        return value
+
+
 # noinspection PyUnboundLocalVariable,PyRedeclaration,PyPep8Naming,PyMethodMayBeStatic
 class FJLexer(sly.Lexer):
     # noinspection PyUnresolvedReferences
@@ -231,7 +243,7 @@ class FJLexer(sly.Lexer):
             elif n[1] in 'bB':
                 t.value = int(n, 2)
             else:
-                t.value = int(n)
+                t.value = decimal_to_int(n)
         else:
             t.value = int(t.value)
         return t
